@@ -15,6 +15,7 @@
    (what a standard reader does with the same bytes). *)
 From Coq Require Import ZArith List Bool Lia.
 From DH Require Import Base.Layout.
+From DH Require Spec.VmTar.
 From DH Require Gen.VmTar.
 Import ListNotations.
 Open Scope Z_scope.
@@ -152,7 +153,7 @@ Definition frombuf_std (buf : list Z) : hres :=
     | NInvalid => HErr EInvalid | NUnmod => HUnmod
     | NOk _ =>
       let name0 := nts (slice buf 0 100) in
-      let ty0 := nth 156 buf 0 in
+      let ty0 := match slice buf 156 1 with [t] => t | _ => 0 end in
       let link := nts (slice buf 157 100) in
       let prefix := nts (slice buf 345 155) in
       let ty := if (ty0 =? AREGTYPE) && ends_slash name0 then DIRTYPE else ty0 in
@@ -344,3 +345,20 @@ Definition run (va : bool) (f : list Z) :=
   | Done ms => Done (map (fun t => (show t, extract f t)) ms)
   | Raises => Raises | Unmod => Unmod | NoFuel => NoFuel
   end.
+
+(* ---------- vocabulary of the theorem statements (Props/C20.v) ---------- *)
+(* a listed member as an entry of the specification *)
+Definition entry_of_t (t : tinfo) : Spec.VmTar.entry :=
+  Spec.VmTar.mke (t_name t) (t_link t) (t_type t) (t_size t) (t_off t) (t_data t) (t_visor t) (t_text t) (t_fix t).
+
+(* what ends the header area after the last member: the next block is not a header (a zero block,
+   a short block, the end of the file, bytes whose checksum does not match); an archive without
+   members must end with a zero block (an empty file is not an archive) *)
+Definition stops (a : list Spec.VmTar.amember) (rest : list Z) : Prop :=
+  exists e, frombuf true (rd rest 0 BLOCK) = HErr e /\ (a = [] -> e = EEof).
+
+(* no block of the file, at any offset, carries the visor magic where VisorTarInfo.frombuf looks *)
+Definition no_visor_magic (f : list Z) : Prop :=
+  forall off, list_eqb (slice (rd f off BLOCK) Gen.VmTar.vmtar_magic_lo
+                              (Gen.VmTar.vmtar_magic_hi - Gen.VmTar.vmtar_magic_lo))
+                       Gen.VmTar.vmtar_magic = false.
